@@ -11,7 +11,8 @@ def plan(tier):
     return {
         "mc": mc,
         "families": [{"fam": "hmm", "trace": "HmmTrace"}, {"fam": "hmmx", "trace": "HmmExpTrace"}],
-        "required_obligations": ["mc_family", "layout_column_major",
+        "required_obligations": ["mc_family", "layout_column_major", "model_cloned_mid_use",
+                                 "obs_order_reversed", "obs_repeated_at_end",
                                  # every constructor of both model types, with / without end distribution
                                  "ctor_plain_float", "ctor_plain_prob", "ctor_plain_log",
                                  "ctor_optend_none_float", "ctor_optend_none_prob", "ctor_optend_none_log",
